@@ -254,8 +254,14 @@ def run_native(scr, unit, tier, seed):
     new = open(src).read()
     if not os.path.exists(dst) or open(dst).read() != new:
         open(dst, "w").write(new)
-    cmd = ["cargo", "test", "-p", unit["package"], "--offline", "--release", "--test", name, "--", "--nocapture", "--test-threads", "1"]
+    cmd = ["cargo", "test", "-p", unit["package"], "--offline", "--release"]
+    if unit.get("features"):
+        # a unit may build the crate with a cargo feature of /repo (e.g. `concurrent`: the rayon code paths)
+        cmd += ["--features", unit["features"]]
+    cmd += ["--test", name, "--", "--nocapture", "--test-threads", "1"]
     env = dict(ENV)
+    for k, v in (unit.get("env") or {}).items():
+        env[k] = v
     env["VERIF_SEED"] = str(seed)
     env["VERIF_TIER"] = tier
     # optimised build, but with the arithmetic-overflow and debug assertions of a debug build
@@ -343,7 +349,7 @@ def check(prop, tier):
     verus_units = [u for u in units if u["engine"] == "verus"]
     sel = select(kani_units, prop, tier)
     vsel = [u for u in verus_units if prop in u["props"]]
-    nsel = [u for u in units if u["engine"] == "native" and prop in u["props"]]
+    nsel = [u for u in units if u["engine"] == "native" and prop in u["props"] and (tier == "thorough" or u.get("tier", "quick") == "quick")]
     only_units = os.environ.get("VERIF_UNITS")  # development aid: regex over unit names (no evidence is written)
     if only_units:
         sel = [(u, hs) for (u, hs) in sel if re.search(only_units, u["unit"])] if sel and isinstance(sel[0], tuple) else sel
